@@ -13,7 +13,13 @@ RULE = ("qmail-pop3d: every message over {LF,'.',a,CR} up to length %s retrieved
         "(empty; new/ and cur/; dot-leading lines; no final newline; empty file; CRLF content; equal mtimes; dot files; mtime = now and in the future; "
         "old and fresh tmp/ files), each ended by QUIT or by a dropped connection; for each of DELE/RETR/TOP/LIST/UIDL the number followed by x, ' x', a space, a second number, 2abc, a tab, '.', '-', a leading + or 0, after nothing / DELE 1 / DELE 2, on every population; refusal as uid 0 / without a maildir; %s seeded random sessions "
         "(random maildirs up to 12 messages, files removed by a third party between commands, input cut into arbitrary read sizes, unfinished last line). "
-        "now and then a maildir of 20-49 messages. prioq.c driven directly: every insertion order of up to 6 entries over 4 time stamps, and seeded random "
+        "now and then a maildir of 20-49 messages. SESSION 4 - failing system calls (F lines; the harness makes exactly the scheduled stat/open_read/read/unlink/rename calls of maildir.c and "
+        "qmail-pop3d.c fail, errno cycling EIO/EACCES/ENOMEM): every message of 5 populations (one with a 3 KB and an 11 KB message, lines of 1500 and 9300 bytes) x RETR/TOP n 0/1/3/30 x {next open fails, read number "
+        "0,1,2,3,4,5,9,10,11,12,40 fails}; unlink masks 0..5 x rename masks 0..3 x 5 DELE patterns on 5 populations; every single file stat-failed in the scan / in getlist() / both; a quarter as many random sessions "
+        "again with faults of every kind; compared with the model Nq.Pop3F.mainF, oracle Nq.Pop3FRef.faultSessionOk (armed open => -ERR; armed read => complete correct response or +OK + proper prefix without "
+        "terminator and end of stream, maildir unchanged; QUIT => exact expected maildir for the failing call ordinals, one -ERR line per marked message not unlinked; sessions in which getlist()'s stat fails on a "
+        "message are compared with the model only: finding C19-F1). Big messages (Z lines): sparse files of 2^31-1, 2^31, 2^32-1, 2^32, 2^32+1234, 2^33+5, 70000 bytes and three files of 2^31 bytes, LIST / LIST n / "
+        "STAT / DELE / UIDL / QUIT, listed sizes and STAT's total judged against st_size as unbounded naturals (Nq.Pop3SRef.sessionOkS). prioq.c driven directly: every insertion order of up to 6 entries over 4 time stamps, and seeded random "
         "histories of up to 400 prioq_insert/prioq_delmin calls (few or many equal keys), array and removals compared with the model, oracle = every delmin "
         "removes a minimum, nothing lost or invented, the drain is sorted. "
         "qmail-popup: every command sequence up to length %s over a 23-command alphabet, subprogram exiting 0/1/3/111 or crashing, plus %s random dialogues. "
@@ -147,7 +153,8 @@ def main():
     c.cov["samples"] = [x[:1500] for x in samples[:6]] or ["(no sample emitted)"]
     c.cov["input_distribution"] = {k: v for k, v in stats.items() if k not in ("cases", "distinct_nontrivial", "disagree", "oracle_fail")}
     c.assumptions += [
-        "the maildir holds regular files with unique names; stat/open/read of an existing file succeed (a file may vanish between commands: modelled and run)",
+        "the maildir holds regular files with unique names; stat/open_read/read/unlink/rename fail only where the harness schedules it (session 4: modelled and run; a file may also vanish between commands); "
+        "opendir/readdir, maildir_clean's stat/unlink, write and malloc do not fail",
         "readdir order is whatever the kernel returns; the harness records it and hands it to the model (only the order inside one directory matters)",
         "descriptor 0 delivers the client's bytes in order regardless of read sizes (several chunkings are run); the 20-minute timeout is not modelled",
         "time() is replaced by a fixed clock so that the mtime < now boundary is deterministic",
